@@ -15,7 +15,7 @@ exact-arithmetic (`ℝ`) reading of the transcribed code (rounding is not modell
   `guards_total_*` — decision tables of the argument checks of `incompleteGamma`, `pGamma`,
   `pChisq`, `qChisq`, `qGamma`, `qNorm(p,μ,σ)`, `incompleteBeta`/`pBeta`, `qBeta`;
   `wrapper_*`, `pGamma_scale`, `qGamma_scale`, `normal_affine_inverts` — wrapper identities;
-  `qGamma_inverts` — relative inverse theorem; `affine_monotone_*`, `incompleteGamma_monotone` —
+  `qGamma_inverts_relative` — relative inverse theorem; `affine_monotone_*`, `incompleteGamma_monotone_relative` —
   monotone kernels give monotone wrappers.
 * witnesses of the defects of the snapshot that were repaired in the library:
   `qGammaOld_rescales_sentinel`, `qNorm3Old_rescales_sentinel`,
@@ -445,9 +445,11 @@ theorem normal_affine_inverts (ex tr : ℝ → ℝ) (p mu sigma : ℝ) (hs : sig
   field_simp
   ring
 
-/-- **Relative inverse theorem.**  If the chi-square pair inverts on the domain of `qChisq`
-(the kernels' contract), so does the gamma pair, for every rate `β > 0`. -/
-theorem qGamma_inverts (K : Kernels ℝ)
+/-- **Relative inverse theorem** (`_relative`: about the wrappers, *relative to* a contract the actual
+kernels do not meet — AS91 inverts the chi-square cdf to about 5e-9, not exactly; see
+`qGamma_roundtrip_eq` for the statement that needs no such contract).  If the chi-square pair inverts
+exactly on the domain of `qChisq`, so does the gamma pair, for every rate `β > 0`. -/
+theorem qGamma_inverts_relative (K : Kernels ℝ)
     (hinv : ∀ p v, qChisqSentinel p v = false → pChisq K (qChisq K p v) v = .val p)
     (p a b : ℝ) (hb : 0 < b) (hp : qChisqSentinel p (2 * a) = false) :
     pGamma K (qGamma K p a b) a b = .val p := by
@@ -489,8 +491,12 @@ theorem affine_monotone_qNorm3 (mu sigma : ℝ) (hs : 0 < sigma) (p q : ℝ)
   linarith
 
 /-- `incompleteGamma` is non-decreasing on `x ≥ 0` when its kernel is non-decreasing and
-non-negative on `x > 0` (the value at 0 is the constant 0) -/
-theorem incompleteGamma_monotone (K : Kernels ℝ) (a g : ℝ) (ha : 0 < a)
+non-negative on `x > 0` (the value at 0 is the constant 0).  `_relative`: the antecedent "kernel
+non-decreasing" is **refuted for the actual kernel** by the known findings
+`C08-pgamma-switch-monotone` / `C08-pchisq-switch-monotone` (it steps down by ~1e-8 at the series /
+continued-fraction switch); `incompleteGamma_monotone_slack` is the version whose antecedent the
+exploration supports (`δ = 2e-8`). -/
+theorem incompleteGamma_monotone_relative (K : Kernels ℝ) (a g : ℝ) (ha : 0 < a)
     (hpos : ∀ x, 0 < x → 0 ≤ K.igCore x a g)
     (hmono : ∀ x y, 0 < x → x ≤ y → K.igCore x a g ≤ K.igCore y a g)
     (x y : ℝ) (hx : 0 ≤ x) (hxy : x ≤ y) :
@@ -505,19 +511,21 @@ theorem incompleteGamma_monotone (K : Kernels ℝ) (a g : ℝ) (ha : 0 < a)
       (guards_total_incompleteGamma K y a g).2.2.1 hy ha]
     exact hmono x y h0 hxy
 
-/-- `pGamma(·, α, β)` is non-decreasing on `x ≥ 0` for `α > 0, β > 0` under the same contract -/
-theorem affine_monotone_pGamma (K : Kernels ℝ) (a b : ℝ) (ha : 0 < a) (hb : 0 < b)
+/-- `pGamma(·, α, β)` is non-decreasing on `x ≥ 0` for `α > 0, β > 0` under the same contract
+(`_relative`: a contract the actual gamma kernel fails, see `incompleteGamma_monotone_relative`) -/
+theorem affine_monotone_pGamma_relative (K : Kernels ℝ) (a b : ℝ) (ha : 0 < a) (hb : 0 < b)
     (hpos : ∀ x, 0 < x → 0 ≤ K.igCore x a (K.lnGamma a))
     (hmono : ∀ x y, 0 < x → x ≤ y → K.igCore x a (K.lnGamma a) ≤ K.igCore y a (K.lnGamma a))
     (x y : ℝ) (hx : 0 ≤ x) (hxy : x ≤ y) :
     ∃ u v, pGamma K x a b = .val u ∧ pGamma K y a b = .val v ∧ u ≤ v := by
   refine ⟨_, _, (guards_total_pGamma K x a b).2.2.2 ha (le_of_lt hb),
     (guards_total_pGamma K y a b).2.2.2 ha (le_of_lt hb), ?_⟩
-  exact incompleteGamma_monotone K a _ ha hpos hmono _ _ (mul_nonneg (le_of_lt hb) hx)
+  exact incompleteGamma_monotone_relative K a _ ha hpos hmono _ _ (mul_nonneg (le_of_lt hb) hx)
     (mul_le_mul_of_nonneg_left hxy (le_of_lt hb))
 
-/-- `pChisq(·, v)` is non-decreasing on the whole line for `v > 0` (0 left of the support) -/
-theorem affine_monotone_pChisq (K : Kernels ℝ) (v : ℝ) (hv : 0 < v)
+/-- `pChisq(·, v)` is non-decreasing on the whole line for `v > 0` (0 left of the support), under the
+same contract (`_relative`: a contract the actual gamma kernel fails) -/
+theorem affine_monotone_pChisq_relative (K : Kernels ℝ) (v : ℝ) (hv : 0 < v)
     (hpos : ∀ x, 0 < x → 0 ≤ K.igCore x (v / 2) (K.lnGamma (v / 2)))
     (hmono : ∀ x y, 0 < x → x ≤ y →
       K.igCore x (v / 2) (K.lnGamma (v / 2)) ≤ K.igCore y (v / 2) (K.lnGamma (v / 2)))
@@ -528,19 +536,19 @@ theorem affine_monotone_pChisq (K : Kernels ℝ) (v : ℝ) (hv : 0 < v)
   · by_cases hy : y < 0
     · exact ⟨0, 0, (guards_total_pChisq K x v).1 hx, (guards_total_pChisq K y v).1 hy, le_refl _⟩
     · have hy' : 0 ≤ y := not_lt.mp hy
-      obtain ⟨u, w, h1, h2, _⟩ := affine_monotone_pGamma K (v / 2) (1 / 2) hv2 (by norm_num) hpos hmono
+      obtain ⟨u, w, h1, h2, _⟩ := affine_monotone_pGamma_relative K (v / 2) (1 / 2) hv2 (by norm_num) hpos hmono
         y y hy' (le_refl _)
       refine ⟨0, w, (guards_total_pChisq K x v).1 hx, by rw [wrapper_pChisq K y v hy']; exact h2, ?_⟩
       -- the value at y ≥ 0 is an incomplete gamma value, hence ≥ 0
       rw [(guards_total_pGamma K y (v / 2) (1 / 2)).2.2.2 hv2 (by norm_num)] at h2
       have hw : w = incompleteGamma K (1 / 2 * y) (v / 2) (K.lnGamma (v / 2)) := by injection h2 with h; exact h.symm
       rw [hw]
-      have := incompleteGamma_monotone K (v / 2) _ hv2 hpos hmono 0 (1 / 2 * y) (le_refl _) (by positivity)
+      have := incompleteGamma_monotone_relative K (v / 2) _ hv2 hpos hmono 0 (1 / 2 * y) (le_refl _) (by positivity)
       rwa [(guards_total_incompleteGamma K 0 _ _).2.1 hv2] at this
   · have hx' : 0 ≤ x := not_lt.mp hx
     have hy' : 0 ≤ y := le_trans hx' hxy
     rw [wrapper_pChisq K x v hx', wrapper_pChisq K y v hy']
-    exact affine_monotone_pGamma K (v / 2) (1 / 2) hv2 (by norm_num) hpos hmono x y hx' hxy
+    exact affine_monotone_pGamma_relative K (v / 2) (1 / 2) hv2 (by norm_num) hpos hmono x y hx' hxy
 
 /-- `qGamma(·, α, β)` is non-decreasing on the domain of `qChisq` for `β > 0` when the AS91
 kernel is non-decreasing and non-negative -/
@@ -554,6 +562,41 @@ theorem affine_monotone_qGamma (K : Kernels ℝ) (a b : ℝ) (hb : 0 < b)
   rw [wrapper_qGamma K p a b (by rw [e1]; exact hpos p), wrapper_qGamma K q a b (by rw [e2]; exact hpos q),
     e1, e2]
   exact div_le_div_of_nonneg_right hmono (by linarith)
+
+
+/-- **The gamma round trip *is* the chi-square round trip** — no contract on accuracy: for `α, β > 0`
+and a non-negative `qChisq` value (i.e. not its error value), `pGamma (qGamma p α β) α β` and
+`pChisq (qChisq p 2α) 2α` are the same `incompleteGamma` call.  Hence whatever accuracy `ε` the
+chi-square pair achieves (explored: 1e-8), the gamma pair achieves the same for every rate. -/
+theorem qGamma_roundtrip_eq (K : Kernels ℝ) (p a b : ℝ) (ha : 0 < a) (hb : 0 < b)
+    (hc : 0 ≤ qChisq K p (2 * a)) :
+    pGamma K (qGamma K p a b) a b = pChisq K (qChisq K p (2 * a)) (2 * a) := by
+  rw [wrapper_qGamma K p a b hc, wrapper_pChisq K _ _ hc]
+  have h2a : 0 < 2 * a / 2 := by linarith
+  rw [(guards_total_pGamma K _ _ _).2.2.2 h2a (by norm_num), (guards_total_pGamma K _ _ _).2.2.2 ha (le_of_lt hb)]
+  have e1 : b * (qChisq K p (2 * a) / (2 * b)) = 1 / 2 * qChisq K p (2 * a) := by
+    field_simp
+  have e2 : 2 * a / 2 = a := by ring
+  rw [e1, e2]
+
+/-- monotone *up to `δ`*: when the kernel is non-negative and non-decreasing up to a slack `δ ≥ 0` on
+`x > 0`, so is `incompleteGamma` on `x ≥ 0`.  (`δ = 0` is `incompleteGamma_monotone_relative`; the
+exploration checks the antecedent for the actual kernel at `δ = 2e-8`, clause
+`search_monotone_pgamma@switch`.) -/
+theorem incompleteGamma_monotone_slack (K : Kernels ℝ) (a g δ : ℝ) (ha : 0 < a) (hδ : 0 ≤ δ)
+    (hpos : ∀ x, 0 < x → 0 ≤ K.igCore x a g)
+    (hmono : ∀ x y, 0 < x → x ≤ y → K.igCore x a g ≤ K.igCore y a g + δ)
+    (x y : ℝ) (hx : 0 ≤ x) (hxy : x ≤ y) :
+    incompleteGamma K x a g ≤ incompleteGamma K y a g + δ := by
+  rcases eq_or_lt_of_le hx with h0 | h0
+  · rw [← h0, (guards_total_incompleteGamma K 0 a g).2.1 ha]
+    rcases eq_or_lt_of_le (le_trans hx hxy) with h1 | h1
+    · rw [← h1, (guards_total_incompleteGamma K 0 a g).2.1 ha]; linarith
+    · rw [(guards_total_incompleteGamma K y a g).2.2.1 h1 ha]; linarith [hpos y h1]
+  · have hy : 0 < y := lt_of_lt_of_le h0 hxy
+    rw [(guards_total_incompleteGamma K x a g).2.2.1 h0 ha,
+      (guards_total_incompleteGamma K y a g).2.2.1 hy ha]
+    exact hmono x y h0 hxy
 
 /-! ## Further exact facts -/
 
@@ -620,7 +663,7 @@ def toyK : Kernels ℝ where
 
 example (p a b : ℝ) (hb : 0 < b) (hp : qChisqSentinel p (2 * a) = false) :
     pGamma toyK (qGamma toyK p a b) a b = .val p := by
-  apply qGamma_inverts toyK _ p a b hb hp
+  apply qGamma_inverts_relative toyK _ p a b hb hp
   intro p v h
   have hdom : ¬ (p < chLo ∨ chHi < p ∨ v ≤ 0) := by rw [← qChisqSentinel_iff]; simp [h]
   push Not at hdom
